@@ -1,5 +1,6 @@
 """C19 -- functools.partial objects."""
-from ..rules_mask import rule_mask_names, rule_mask_partial
+from ..rules_mask import rule_mask_names, rule_mask_partial, rule_mask_consume
+from ..rules_discovery import rule_hint_protocol
 from ..rules_partial import rule_partial_siblings, rule_partial_discovery
 from ._shared import Models
 
@@ -24,3 +25,6 @@ def run(check):
         'table': 'C19.R2', 'index': None, 'kinds': 'C19.R2', 'src': 'C19.R2', 'pdefault': 'C19.R2'}))
     check.run_rule('C19.R3', lambda c: rule_mask_partial(c, M.mask(), 'C19.R3'))
     check.run_rule('C19.R4', lambda c: rule_partial_discovery(c, 'C19.R4'))
+    check.run_rule('C19.R4b', lambda c: rule_hint_protocol(c, 'C19.R4'))
+    # bound positionals disappear: consumption order and trip count of the mask
+    check.run_rule('C19.R2c', lambda c: rule_mask_consume(c, M.mask(), 'C19.R2'))
